@@ -243,6 +243,10 @@ def check_arrays(ctx, P):
         ok = ok and len(trues) == 1 and pred.short(rules.var_defs(fn, 0)[[b_ for b_, e in rules.var_defs(fn, 0)].index(trues[0])][1], fn).startswith("Into::into(CtEqual::ct_eq(")
     ctx.check(ok, "cmp", "MacResult::eq", "len == len && ct_eq(code, code)", "MacResult equality is not `lengths equal and ct_eq of both codes`", where=fn.where(), key="cmp:MacResult::eq")
     aead.check_tag_eq(ctx, P)
+    from . import ctshape
+    got = []
+    ctx.guard("shape-eval", "ct aggregates", lambda: got.append(ctshape.check(ctx, P)))
+    ctx.check(got == [14], "floor", "shape-eval", "14 aggregate constant-time helpers evaluated for lengths 0..3 with symbolic contents", "only %s aggregate helpers evaluated" % got, key="floor:shape-eval")
 
 
 def check_bytes_lt(ctx, P):
